@@ -347,7 +347,12 @@ impl Iterator for Lexer {
                 self.consume_char();
 
                 if dir_str == "." {
-                    return self.next();
+                    return Some(Err(LexError::UnexpectedToken(Box::new(Token::new(
+                        TokenType::Directive(dir_str.clone()),
+                        dir_str,
+                        Range::new(start, end),
+                        self.source_id,
+                    )))));
                 }
 
                 Some(Token::new(
